@@ -79,6 +79,12 @@ GetPlannerData ==
     /\ UNCHANGED <<bound, qid, holds, roadmap, needsClear, solved, alive>>
     /\ lastAct' = [act |-> "GetPlannerData", args |-> <<>>]
 
+(* setup() needs the problem definition (several planners configure themselves from it) *)
+Setup ==
+    /\ alive /\ bound # "none"
+    /\ UNCHANGED <<bound, qid, holds, roadmap, needsClear, solved, alive>>
+    /\ lastAct' = [act |-> "Setup", args |-> <<>>]
+
 Destroy ==
     /\ alive
     /\ alive' = FALSE /\ holds' = {} /\ roadmap' = {}
@@ -87,7 +93,7 @@ Destroy ==
 
 Next == \/ \E p \in Pdefs : SetPdef(p) \/ NewQuery(p)
         \/ \E k \in Budgets : Solve(k)
-        \/ Clear \/ ClearQuery \/ GetPlannerData \/ Destroy
+        \/ Clear \/ ClearQuery \/ GetPlannerData \/ Setup \/ Destroy
 
 Spec == Init /\ [][Next]_vars
 
